@@ -50,7 +50,154 @@ def gen_case(rng):
     return bsz, form, srcs, opts, args
 
 
+MARK = "<#M#>"
+_SOLO = {}
+
+
+def solo_messages(kind, name, data, path, opts):
+    """per-source message sequence of a non-text source, from a solo run split on the separator marker
+    (the greedy head merge of the statement is then applied to these sequences)"""
+    key = (kind, name, tuple(opts))
+    if key in _SOLO:
+        return _SOLO[key]
+    scn = core.Scenario([core.FileSpec(path, data, 1600000000)], list(opts) + [path], None, "UTC")
+    res = core.execute(scn, core.Plan(seed=1, policy="lowest"))
+    parts = res.stdout.split(MARK.encode())
+    tail = parts.pop()
+    msgs = [p + MARK.encode() for p in parts]
+    _SOLO[key] = (msgs, tail, res.rc)
+    return _SOLO[key]
+
+
+def run_mixed_case(seed, i, tier):
+    """sources of different kinds in one run: shipped evtx + shipped journal + generated accounting file + generated text"""
+    import c08
+    import c09
+    import c10
+    import fixtures
+    import layouts
+    rng = core.rng_for(seed, PROP, i)
+    opts = ["--color", "never", "--tz-offset", "+00:00", "--separator", MARK]
+    kinds = rng.sample(("evtx", "journal", "utmp", "text", "text2"), rng.randint(2, 4))
+    srcs = []     # (path, data, [(instant_ns, bytes)])
+    NS = 1_000_000_000
+    # the shipped inputs live in these time ranges; generated sources are placed inside them so the merge interleaves
+    evtx_recs = c10.dump("pnp")
+    t_lo = min(t for (_, _, t) in evtx_recs)
+    t_hi = max(t for (_, _, t) in evtx_recs)
+    for k in kinds:
+        if k == "evtx":
+            data = fixtures.load("pnp")
+            msgs, tail, _ = solo_messages("evtx", "pnp", data, "e.evtx", opts)
+            order = sorted(evtx_recs, key=lambda r: (r[2], r[0]))
+            if len(msgs) != len(order):
+                continue
+            srcs.append(("e.evtx", data, [(order[j][2], msgs[j]) for j in range(len(msgs))]))
+        elif k == "journal":
+            jn = rng.choice(("u22x3", "ubuntu16"))
+            data = fixtures.load(jn)
+            ents = c09.dump(jn)
+            msgs, tail, _ = solo_messages("journal", jn, data, "j.journal", opts)
+            if len(msgs) != len(ents):
+                continue
+            srcs.append(("j.journal", data, [(ents[j]["rt"] * 1000, msgs[j]) for j in range(len(msgs))]))
+        elif k == "utmp":
+            name = rng.choice(sorted(layouts.LAYOUTS))
+            size, so, ss, uo, us, fields, fname, *_ = layouts.LAYOUTS[name]
+            n = rng.randint(1, 12)
+            recs = []
+            raw = bytearray()
+            for j in range(n):
+                sec = rng.randint(t_lo // NS - 3600, t_hi // NS + 3600) if rng.random() < 0.7 else rng.choice(evtx_recs)[2] // NS
+                usec = 0 if uo is None else rng.choice((0, rng.randrange(1000000)))
+                mk = {f: ({"ut_line": b"t", "ll_line": b"t", "ut_user": b"u", "ut_name": b"u", "ut_host": b"h", "ll_host": b"h", "ac_comm": b"c"}[f] + b"%03d" % j)
+                      for (f, _, _) in fields}
+                raw += layouts.make_record(name, sec, usec, mk)
+                recs.append((sec * NS + usec * 1000, j))
+            others = sorted(set(v[0] for v in layouts.LAYOUTS.values()) | {280, 428, 432})
+            for _ in range(12):
+                if not [o for o in others if o != size and size % o != 0 and len(raw) % o == 0]:
+                    break
+                raw += layouts.null_record(name)
+            msgs, tail, _ = solo_messages("utmp", "%s-%d" % (name, i), bytes(raw), fname, opts)
+            order = sorted(recs)
+            if len(msgs) != len(order):
+                continue
+            srcs.append((fname, bytes(raw), [(order[j][0], msgs[j]) for j in range(len(msgs))]))
+        else:
+            n = rng.randint(1, 15)
+            inst = sorted((rng.randint(t_lo, t_hi) // 1_000_000 * 1_000_000 if rng.random() < 0.6 else rng.choice(evtx_recs)[2] // 1000 * 1000)
+                          for _ in range(n))
+            p = world.TextLogParams(notation=rng.choice((1, 2)), off_min=rng.choice((0, 60, -300, 330)), n_msgs=n,
+                                    src_letter=b"X" if k == "text" else b"Y", instants=inst, frac_digits=6, cont_p=0.2)
+            content, tm, _ = world.gen_text_log(rng, p)
+            path = "x.log" if k == "text" else "y.log"
+            ms = []
+            for j, m in enumerate(tm):
+                d = m.data + MARK.encode()
+                if j == len(tm) - 1 and not m.data.endswith(b"\n"):
+                    d += b"\n"
+                ms.append((m.instant, d))
+            srcs.append((path, content, ms))
+    cr = CaseResult()
+    if len(srcs) < 2:
+        return cr
+    rng.shuffle(srcs)
+    heads = [0] * len(srcs)
+    expected = bytearray()
+    while True:
+        best = None
+        for si, (_, _, ms) in enumerate(srcs):
+            if heads[si] < len(ms):
+                key = (ms[heads[si]][0], si)
+                if best is None or key < best:
+                    best = key
+        if best is None:
+            break
+        si = best[1]
+        expected += srcs[si][2][heads[si]][1]
+        heads[si] += 1
+    expected = bytes(expected)
+    scn = core.Scenario([core.FileSpec(p, d, 1600000000) for (p, d, _) in srcs], opts + [p for (p, _, _) in srcs], None, "UTC")
+    K = 2 if tier == "quick" else 4
+    for k in range(K):
+        prng = core.rng_for(seed, PROP, i, "plan", k)
+        plan = core.random_plan(prng, len(srcs), budget=6_000_000)
+        plan.hashseed = rng.getrandbits(32)
+        res = core.execute(scn, plan)
+        if res.timed_out:
+            res = core.execute(scn, plan, wall_cap=120.0)
+        tr = res.trace
+        cr.runs += 1
+        cr.steps += tr.steps
+        cr.steps_max = max(cr.steps_max, tr.steps)
+        cr.policies[plan.policy.split(":")[0]] += 1
+        cr.probes.update(tracecheck.probes(tr))
+        cr.probes["mixed_kinds_run"] += 1
+        for (p, _, _) in srcs:
+            cr.probes["kind_" + p.split(".")[-1]] += 1
+        cr.decision_hashes.append(tr.decision_hash())
+        cr.arrival_hashes.append(tr.arrival_hash())
+        cr.faults["schedule_perturbation"] += 1
+        cr.nontrivial_keys.append(core.derive(0, "%s|%s" % (scn.digest(), tr.arrival_hash())))
+        vs = mergecheck.evaluate(res, expected)
+        for (cls, detail) in vs:
+            rp = {"kind": "scenario", "scenario": scn.to_json() if sum(len(d) for (_, d, _) in srcs) < 3_000_000 else None,
+                  "plan": plan.as_replay(tr).to_json(), "expected_b64": __import__("base64").b64encode(expected).decode(), "class": cls}
+            if rp["scenario"] is None:
+                continue
+            cr.violations.append(Violation(cls, "mixed kinds %s schedule#%d policy=%s: %s" % ([p for (p, _, _) in srcs], k, plan.policy, detail), rp))
+        if vs:
+            if not cr.violations:
+                cr.violations.append(Violation(vs[0][0], "mixed kinds %s (too large to inline): %s" % ([p for (p, _, _) in srcs], vs[0][1]), None))
+            break
+    cr.sample = {"form": "mixed_kinds", "argv": scn.argv, "sources": [(p, len(d), len(ms)) for (p, d, ms) in srcs]}
+    return cr
+
+
 def run_case(seed, i, tier):
+    if i % 5 == 4:
+        return run_mixed_case(seed, i, tier)
     rng = core.rng_for(seed, PROP, i)
     K = 2 if tier == "quick" else 6
     bsz, form, srcs, opts, args = gen_case(rng)
@@ -140,7 +287,8 @@ RULE = ("one case = 1..6 generated text sources (plain/gz/bz2/xz/lz4; instants d
         "inside and across sources are the norm; equal instants written with different UTC offsets; 1..9 "
         "fractional digits) named as arguments, permuted, or placed in a walked directory tree, executed under K "
         "schedules; non-trivial = >=2 live worker threads; distinct = (scenario digest, arrival sequence) pairs")
-ASSUMPTIONS = ["text sources only in this check (accounting, journal and evtx sources are merged in C08/C09/C10 runs)",
+ASSUMPTIONS = ["one case in five merges sources of different kinds (shipped evtx, shipped journal, generated accounting file, generated text): "
+               "per-source message sequences come from a solo run split on a separator marker, their instants from the independent readers / the generator",
                "model = greedy head merge by (instant, source index), written from the statement",
                "sampling, not enumeration"]
 
